@@ -146,7 +146,7 @@ Qed.
 
 (* ------------------------------------------------------------------ one rotation *)
 Lemma mount_next_rotates_ts c crit e lo hi w wr keys closed ts roll force :
-  tscfg c crit -> tag_free c -> years_ok e lo hi -> TsInv c e lo w wr keys closed ts ->
+  tscfg c crit -> tag_ok c -> years_ok e lo hi -> TsInv c e lo w wr keys closed ts ->
   (wnow w <= hi)%Z -> (N.of_nat (length closed) <= usize_max)%N ->
   force || rotation_necessary w roll = true ->
   exists w' wr' roll',
@@ -278,7 +278,7 @@ Qed.
 
 (* ------------------------------------------------------------------ a write on an active writer *)
 Lemma write_active_ts c crit e lo hi w wr keys closed ts roll b :
-  tscfg c crit -> tag_free c -> years_ok e lo hi -> TsInv c e lo w wr keys closed ts ->
+  tscfg c crit -> tag_ok c -> years_ok e lo hi -> TsInv c e lo w wr keys closed ts ->
   (wnow w <= hi)%Z -> (N.of_nat (length closed) <= usize_max)%N ->
   let rot := rotation_necessary w roll in
   exists w' wr' roll' keys' closed' ts',
